@@ -166,6 +166,9 @@ def S_T_term(ctx, lib, which=None):
         table1("Term::is_true", "datatypes::bdd::Term::is_true", lambda c: c == "T")
     if want("compare_inf"):
         table2("Term::compare_inf", "datatypes::bdd::Term::compare_inf", lambda a, b: a == b)
+    if want("no_inf_inconsistency"):
+        # a.no_inf_inconsistency(b): b carries the same information as a, or a is undecided (b may only add information to a)
+        table2("Term::no_inf_inconsistency", "datatypes::bdd::Term::no_inf_inconsistency", lambda a, b: a == b or a == "U")
     if want("cmp_information"):
         table2("Term::cmp_information", "datatypes::bdd::Term::cmp_information", lambda a, b: a == b, mk2=bio)
     if want("bio_is_truth_value"):
